@@ -18,11 +18,11 @@ RULE = ('one generated spec is built (1) as a hand-written spied chart, (2) with
         'Every fourth case registers (adds or replaces) 1-4 reactions with register_signal_callback AFTER the chart has already run events and compares with a hand-written chart whose reactions change at that moment. In every third case a share of the callbacks are bound methods of a DELEGATE object (not of the chart), which the template calls with the event only. In every second case a SECOND template chart that shares the first chart\'s state names but has a different design (nesting, '
         'reactions, callbacks) is assembled after the first and is alive while the first runs; it is then driven itself and must follow '
         'its own design (reference model) - whatever one chart registers belongs to that chart only. '
-        'Every eighth case gives one callback NO status for a user signal (a guarded reaction that falls off its end): a hand-written state that calls the same callbacks passes the None on and the event processor rejects it - the template and the to_code text must do the same, step for step (actions, rest state, exception). distinct_nontrivial = distinct (build, states, transitions, declines) tuples')
+        'Every eighth case gives one callback NO status for a user signal (a guarded reaction that falls off its end): a hand-written state that calls the same callbacks passes the None on and the event processor rejects it - the template and the to_code text must do the same, step for step (actions, rest state, exception). Every sixteenth case ASSEMBLES the chart from 2-4 real threads at once (vt/osback.py: nothing substituted; every state got its first callback from the main thread beforehand) and then requires the behaviour of the design. distinct_nontrivial = distinct (build, states, transitions, declines) tuples')
 CASES = {'quick': 2500, 'thorough': 100000}
 BUDGET = {'quick': 150, 'thorough': 300}
 REQUIRE = {'template_builds': 800, 'to_code_builds': 800, 'factory_builds': 50, 'steps_compared': 20000, 'declines': 200,
-           'decoy_charts_alive_with_shared_state_names': 500, 'template_builds_with_delegate_callbacks': 150, 'late_registration_cases': 300, 'statusless_callback_cases': 200, 'statusless_callback_reached_and_rejected': 100}
+           'decoy_charts_alive_with_shared_state_names': 500, 'template_builds_with_delegate_callbacks': 150, 'late_registration_cases': 300, 'statusless_callback_cases': 200, 'statusless_callback_reached_and_rejected': 100, 'threaded_assembly_cases': 80}
 ASSUME = ['signal and state names are Python identifiers (to_code emits signals.NAME and def NAME)']
 
 
@@ -346,9 +346,89 @@ def statusless_callback_case(ctx, n):
       return
 
 
+def threaded_assembly_case(ctx, n):
+  """the chart is ASSEMBLED BY SEVERAL THREADS (second opinion on real threads, vt/osback.py: nothing substituted, switch interval
+  1 us, random yields at line starts of miros code): every state gets its first callback from the main thread (so that the state
+  is known to the chart), then 2-4 threads register the reactions of the same states at once; once every registration call has
+  returned the chart must react to every signal it has a callback for, like the hand-written chart (reference model).  Threads
+  that do not finish within the wall-clock limit make the case inconclusive here, never a verdict"""
+  from vt import osback
+  rng = ctx.rng('threads', n)
+  spec = cg.gen_spec(rng, nmax=rng.choice([2, 3, 5]), name_style='plain', p_clause=1.0, nsig=rng.randint(4, 6), guards=False)
+  spec['sigs'] = spec['sigs'][:-1] + ['ZZ']
+  for i in range(spec['n']):
+    spec['clauses'][i] = [True, True, True]
+  names = spec['names']
+  start = rng.randrange(spec['n'])
+  script = cg.gen_script(rng, spec, rng.randint(10, 30))
+  log, fns, cnt = [], {}, [0]
+  cbs = make_callbacks(spec, log, fns, cnt)
+  budget = [0]
+
+  class Counted(HsmWithQueues):
+    def top(self, *a):
+      budget[0] += 1
+      if budget[0] > 20000:
+        raise cg.Budget()
+      return HsmWithQueues.top(self, *a)
+  chart = Counted()
+  for i in range(spec['n']):
+    fns[names[i]] = state_method_template(names[i])
+  for i in range(spec['n']):
+    p = spec['parent'][i]
+    chart.register_parent(fns[names[i]], chart.top if p is None else fns[names[p]])
+    # the first callback of every state comes from the main thread
+    chart.register_signal_callback(fns[names[i]], signals.ENTRY_SIGNAL, cbs[(i, 'ENTRY_SIGNAL')])
+  rest = [(i, sg, cb) for (i, sg), cb in sorted(cbs.items(), key=lambda kv: (kv[0][0], kv[0][1])) if sg != 'ENTRY_SIGNAL']
+  rng.shuffle(rest)
+  nthreads = rng.randint(2, 4)
+  shares = [rest[k::nthreads] for k in range(nthreads)]
+
+  def registrar(share):
+    for i, sg, cb in share:
+      chart.register_signal_callback(fns[names[i]], getattr(signals, sg), cb)
+  for sg in spec['sigs']:
+    getattr(signals, sg)          # (signal names are registered beforehand: the registry is C25's business)
+  with osback.Perturb(rng.randrange(1 << 30), p_yield=rng.choice([0.2, 0.5, 0.8])) as P:
+    finished, excs = osback.run_threads([(registrar, (sh,)) for sh in shares], limit=30.0)
+  ctx.count('os_backend_yields_injected', P.nyields)
+  wit = {'backend': 'os threads', 'spec': spec, 'start': start, 'script': script, 'registering_threads': nthreads}
+  if excs:
+    ctx.count('threaded_assembly_cases')
+    ctx.violation('C17/template-raises', 'a thread registering callbacks raised: %r' % excs, wit)
+    return
+  if not finished:
+    ctx.count('os_backend_inconclusive')
+    return
+  ctx.count('threaded_assembly_cases')
+  ctx.count('callbacks_registered_by_racing_threads', len(rest))
+  m = cg.Model(spec)
+  exp = [relevant(spec, m.start(start))]
+  for sn in script:
+    exp.append(relevant(spec, m.dispatch(sn)[0]))
+  try:
+    got = drive_sync(chart, fns[names[start]], script, log, lambda: budget.__setitem__(0, 0))
+  except cg.Budget:
+    ctx.violation('C17/template-does-not-terminate', 'template chart assembled by %d threads exceeded the step budget' % nthreads, wit)
+    return
+  except Exception as ex:
+    ctx.violation('C17/template-raises', 'template chart assembled by %d threads raised %s: %s' % (nthreads, type(ex).__name__, ex), wit)
+    return
+  got = [relevant(spec, lg) for lg, rest_ in got]
+  ctx.count('steps_compared', len(got))
+  ctx.distinct(('threads', spec['n'], nthreads, len(rest)))
+  for k, (lg, elg) in enumerate(zip(got, exp)):
+    if lg != elg:
+      ctx.violation('C17/template-differs-from-hand-written', 'template chart whose callbacks were registered by %d threads at once, step %d (%s): log %r; the design gives %r' % (
+        nthreads, k - 1, script[k - 1] if k else 'start_at', lg, elg), dict(wit, failing_step=k - 1))
+      return
+
+
 def run_case(ctx, n):
   if n % 4 == 2:
     return late_registration_case(ctx, n)
+  if n % 16 == 9:
+    return threaded_assembly_case(ctx, n)
   if n % 8 == 5:
     return statusless_callback_case(ctx, n)
   rng = ctx.rng('case', n)
